@@ -104,6 +104,12 @@ Init ==
          \/ \E a \in 0..3, b \in 0..3, c \in 0..3 : \/ Call("Weighted", <<>>, <<IV(a), IV(b), IV(c)>>, IV(a + 2 * b + 3 * c))
                                                     \/ Call("Weighted", <<>>, <<IV(a), IV(b)>>, IV(a + 2 * b))
          \/ \E a \in Short, b \in Short, c \in Short : Call("Cat", <<>>, <<SV(a), SV(b), SV(c)>>, SV(a \o b \o c))
+         \* a variadic part may be empty or hold one argument; Lead(a, rest...) = 10 a + sum of rest has a fixed parameter before it
+         \/ Call("Weighted", <<>>, <<>>, IV(0)) \/ Call("Cat", <<>>, <<>>, SV(<<>>))
+         \/ \E a \in 0..3 : Call("Weighted", <<>>, <<IV(a)>>, IV(a)) \/ Call("Lead", <<>>, <<IV(a)>>, IV(10 * a))
+         \/ \E a \in Short : Call("Cat", <<>>, <<SV(a)>>, SV(a))
+         \/ \E a \in 0..3, b \in 0..3 : Call("Lead", <<>>, <<IV(a), IV(b)>>, IV(10 * a + b))
+         \/ \E a \in 0..3, b \in 0..3, c \in 0..3 : Call("Lead", <<>>, <<IV(a), IV(b), IV(c)>>, IV(10 * a + b + c))
          \/ \E a \in 0..3, s \in Short, b \in BOOLEAN : Call("Mixed", <<>>, <<IV(a), SV(s), BV(b)>>, IV(a * 100 + Len(s) * 10 + (IF b THEN 1 ELSE 0)))
 Next == UNCHANGED case
 Spec == Init /\ [][Next]_case
